@@ -23,7 +23,7 @@ ASSUMPTIONS = [
     "relative tolerance 1e-9 between float history and exact rational value",
     "indices where mu_i is exactly 0 or u (0/0 in the product) are skipped and counted; C11/C01 still constrain them",
     "eta_i / lambda_i are taken from the library's estimator/bet (their legitimacy is C05/C13's business)",
-    "for the SPRT, either the raw or the [0,u]-clipped fixed-alternative sequence is accepted",
+    "for the SPRT, either the raw or the [0,u]-clipped fixed-alternative sequence is accepted; an alternative at or below the null mean (inside the documented range (0,u), but no alternative to 'mean <= t') counts as the null mean itself",
 ]
 REQUIRE_VAC = ["entries_compared", "entries_strictly_inside", "singular_entries_skipped", "equiv_nodes"]
 REL = 1e-9
